@@ -94,9 +94,9 @@ func (this *Item) action(sym string, nextState int) action.Action {
 	return action.ERROR
 }
 
-// canRecover returns true if the error symbol can be shifted from this item: X : •error w
+// canRecover returns true if the error symbol can be shifted from this item: X : v •error w
 func (this *Item) canRecover() bool {
-	return this.Len > 0 && this.Pos == 0 && this.Body[0] == "error"
+	return this.Pos < this.Len && this.Body[this.Pos] == "error"
 }
 
 // Equals weturns whether two Items are equal based on their ProdIdx, Pos and NextToken.
